@@ -12,8 +12,8 @@ use std::path::{Path, PathBuf};
 // Syntactic AST
 
 use crate::source_file::{
-    parse_source_and_includes, range_to_span, read_source_file, resolve_file_path, ErrorTrait,
-    SourceFile, SourceString,
+    canonical_or_same, parse_source_and_includes, parse_source_and_includes_in, range_to_span,
+    read_source_file, resolve_file_path, ErrorTrait, SourceFile, SourceString,
 };
 
 pub fn parse_source_file<T>(file_path: T) -> SourceFile
@@ -35,8 +35,13 @@ where
     P: AsRef<Path>,
 {
     let full_path = resolve_file_path(file_path, search_path_list);
-    let (syntax_ast, parsed_included_source) =
-        parse_source_and_includes(read_source_file(&full_path).as_str(), search_path_list);
+    // The main file is the outermost file whose inclusion is in progress.
+    let mut open_files = vec![canonical_or_same(&full_path)];
+    let (syntax_ast, parsed_included_source) = parse_source_and_includes_in(
+        read_source_file(&full_path).as_str(),
+        search_path_list,
+        &mut open_files,
+    );
     SourceFile::new(full_path, syntax_ast, parsed_included_source, None)
 }
 
